@@ -290,8 +290,172 @@ def r2_scoped(ctx):
     return r
 
 
+def _fn_body(text, header_rx):
+    """text of the brace group that follows the first match of header_rx in token text"""
+    m = re.search(header_rx, text)
+    if not m:
+        return None
+    i = text.find("{", m.end() - 1)
+    d = 0
+    for k in range(i, len(text)):
+        if text[k] == "{":
+            d += 1
+        elif text[k] == "}":
+            d -= 1
+            if d == 0:
+                return text[i + 1:k]
+    return None
+
+
+def r0_generated(ctx):
+    """abstract evaluation (rules/absint.py) of create_locales_enum on a locale list with plain, regional, right-to-left
+    and non-canonically spelled names; the generated token text is then read back: each table must pair a locale's own
+    identifier with its own configured name"""
+    from rules import absint
+    from rules.absint import AEval, A, C, CF, L, TOK
+    r = Rule("C13.R0", "the generated Locale enum: every table pairs a locale with its own configured name",
+             "`as_str / Display / serde give the configured name, from_str is its exact inverse and accepts nothing else, the ICU locale "
+             "and the direction are those of the locale's own name, get_all lists the configured locales in order`", floor=6)
+    ast = ctx.ast
+    ML_ = "leptos_i18n_macro/src/load_locales/mod.rs"
+    funcs = absint.file_funcs(ast, ML_)
+    fn = funcs.get("create_locales_enum")
+    if fn is None:
+        r.missing("create_locales_enum")
+        return r, False, "anchor missing"
+    S = lambda x: ("str", x)  # noqa: E731
+    names = ["en", "fr-CA", "ar", "pt-br", "zh_Hant"]
+    idents = {n: n.replace("-", "_") for n in names}
+    RTL = {"ar", "he", "fa"}
+
+    def canon(tag):
+        parts = re.split(r"[-_]", tag)
+        out = [parts[0].lower()]
+        for p_ in parts[1:]:
+            out.append(p_.title() if len(p_) == 4 else (p_.upper() if len(p_) in (2, 3) else p_.lower()))
+        return "-".join(out)
+
+    def totok(v):
+        if v[0] == "ctor" and v[1] == "Key":
+            return absint.fields_of(v)["ident"][1]
+        return None
+
+    def disp(v):
+        if v[0] == "ctor" and v[1] == "LanguageIdentifier":
+            return S(canon(absint.fields_of(v)["tag"][1]))
+        if v[0] == "ctor" and v[1] == "Key":
+            return absint.fields_of(v)["name"]
+        return S(absint.fmt(v))
+
+    def run_gen(cfgf):
+        ev = AEval(funcs={k: v for k, v in funcs.items() if k != "create_locales_enum"})
+        ev.totokens = totok
+        ev.display = disp
+        ev.cfg = cfgf
+        ev.builtins = {
+            "parse": lambda rv, a: C("Ok", CF("LanguageIdentifier", tag=rv)) if rv[0] == "str" and re.match(r"^[A-Za-z]{2,3}([-_][A-Za-z0-9]+)*$", rv[1]) else C("Err", A("parse-error")),
+            "get": lambda rv, a: C("Some", C("RightToLeft" if re.split(r"[-_]", absint.fields_of(a[0])["tag"][1])[0].lower() in RTL else "LeftToRight")) if rv == A("ld") and a and a[0][0] == "ctor" else A("get")}
+        ev.path_builtins = {"icu_locid_transform::LocaleDirectionality::new": lambda a: A("ld"), "LocaleDirectionality::new": lambda a: A("ld")}
+        keys = L(*[CF("Key", name=S(n), ident=TOK(idents[n])) for n in names])
+        return ev.run_fn(fn, [TOK("Locale"), TOK("I18nKeys"), TOK("UnitId"), keys])
+    variants = [("static", lambda t: False), ("dynamic_load+ssr", lambda t: "dynamic_load" in t and "csr" not in t and "hydrate" not in t)]
+    for label, cfgf in variants:
+        got = run_gen(cfgf)
+        if isinstance(got, str):
+            return r, False, got
+        if not (got[0] == "ctor" and got[1] == "Ok" and got[2] and got[2][0][0] == "tok"):
+            r.viol("R0:create_locales_enum#result", "for valid locale names the generator returns %s" % absint.fmt(got)[:120], file=fn.file, line=fn.line)
+            continue
+        text = got[2][0][1]
+        pairs = [(idents[n], n) for n in names]
+
+        def clause(key, ok, what, detail=""):
+            if ok:
+                r.inst("%s [%s]" % (key, label), what)
+            else:
+                r.viol("R0:create_locales_enum#" + key, "%s (%s build): %s" % (what, label, detail[:220]), file=fn.file, line=fn.line)
+        m = re.search(r"pub enum Locale \{(.*?)\}", text)
+        vs = [x.strip() for x in re.sub(r"# \[default\]", "", m.group(1)).split(",") if x.strip()] if m else None
+        clause("variants", vs == [i for i, _n in pairs] and m is not None and re.match(r"^\s*# \[default\] " + re.escape(pairs[0][0]) + r"\b", m.group(1)) is not None,
+               "the enum lists the configured locales in order, the first one is the default", str(vs))
+        b = _fn_body(text, r"fn as_str \(self\)")
+        arms = re.findall(r"Locale :: (\w+) => \"([^\"]*)\"", b or "")
+        clause("as_str", arms == pairs, "as_str maps every variant to its own configured name", str(arms))
+        b = _fn_body(text, r"fn from_str \(s : & str\)")
+        mm = re.search(r"match (.*?) \{(.*)\}\s*$", b or "")
+        farms = re.findall(r"\"([^\"]*)\" => Ok \(Locale :: (\w+)\)", mm.group(2)) if mm else []
+        clause("from_str", bool(mm) and [(i, n) for n, i in farms] == pairs, "from_str maps exactly the configured names back to their variants", str(farms))
+        clause("from_str-scrutinee", bool(mm) and mm.group(1).strip() in ("s", "s . trim ()"), "from_str matches on the (trimmed) input itself", mm.group(1) if mm else "no match expression")
+        rest = re.sub(r"\"[^\"]*\" => Ok \(Locale :: \w+\) ,?", "", mm.group(2)).strip() if mm else ""
+        clause("from_str-fallback", rest in ("_ => Err (())", "_ => Err (()) ,"), "any other input is Err(())", rest)
+        b = _fn_body(text, r"fn as_icu_locale \(self\)")
+        consts = dict(re.findall(r"const (\w+) : [^=]*= & [^;]*?locale ! \(\"([^\"]*)\"\) ;", b or ""))
+        iarms = re.findall(r"Locale :: (\w+) => (\w+)", b or "")
+        clause("as_icu_locale", [(i, consts.get(c)) for i, c in iarms] == pairs and len(consts) == len(pairs), "the ICU locale of a variant is locale!(<its own configured name>)", "%s %s" % (iarms, consts))
+        b = _fn_body(text, r"fn direction \(self\)")
+        darms = re.findall(r"Locale :: (\w+) => l_i18n_crate :: Direction :: (\w+)", b or "")
+        clause("direction", darms == [(i, "RightToLeft" if re.split(r"[-_]", n)[0] in RTL else "LeftToRight") for i, n in pairs], "the direction of a variant is looked up with its own name", str(darms))
+        b = _fn_body(text, r"fn get_all \(\)")
+        ga = re.findall(r"Locale :: (\w+)", b or "")
+        clause("get_all", ga == [i for i, _n in pairs], "get_all lists every variant once, in configured order", str(ga))
+        b1, b2 = _fn_body(text, r"fn to_base_locale \(self\)"), _fn_body(text, r"fn from_base_locale \(locale : Self\)")
+        clause("base-locale", (b1 or "").strip() == "self" and (b2 or "").strip() == "locale", "to_base_locale / from_base_locale are the identity", "%s / %s" % (b1, b2))
+        ser = _fn_body(text, r"fn serialize < S >")
+        de = _fn_body(text, r"fn deserialize < D >")
+        dsp = _fn_body(text, r"impl core :: fmt :: Display for Locale \{fn fmt")
+        clause("text-forms", "Locale :: as_str (* self)" in (ser or "") and "LocaleVisitor ::< Locale >:: new ()" in (de or "") and "deserialize_str" in (de or "") and "Locale :: as_str (* self)" in (dsp or ""),
+               "Serialize / Display print as_str; Deserialize decodes a string through LocaleVisitor", "")
+    bad = run_gen(variants[0][1]) if False else None
+    # an invalid locale name is an error, not a panic / silently accepted
+    ev_names = names
+    names = ["en", "not a locale!"]
+    idents["not a locale!"] = "bad"
+    got = run_gen(variants[0][1])
+    names = ev_names
+    if isinstance(got, str):
+        return r, False, got
+    if not (got[0] == "ctor" and got[1] == "Err"):
+        r.viol("R0:create_locales_enum#invalid-name", "a locale name that is not a language identifier gives %s, expected an error" % absint.fmt(got)[:100], file=fn.file, line=fn.line)
+    else:
+        r.inst("invalid locale name", "Err(%s)" % absint.fmt(got[2][0])[:40])
+    # LocaleVisitor: from_str(..).unwrap_or_default() whichever visit_* serde calls
+    MH = "leptos_i18n/src/macro_helpers/mod.rs"
+    vf = absint.file_funcs(ast, MH, impl_self="LocaleVisitor")
+    for nm in ("visit_borrowed_str", "visit_str", "visit_string"):
+        f = vf.get("LocaleVisitor::" + nm)
+        if f is None:
+            r.missing("LocaleVisitor::" + nm)
+            continue
+        outs = []
+        for text_, res in (("fr", C("Ok", A("fr-variant"))), ("zz", C("Err", absint.UNIT))):
+            ev = AEval(funcs=vf)
+            ev.path_builtins = {"L::from_str": lambda a, res=res: res, "<L as FromStr>::from_str": lambda a, res=res: res, "FromStr::from_str": lambda a, res=res: res}
+            ev.builtins = {"parse": lambda rv, a, res=res: res}
+            outs.append(ev.run_fn(f, [A("visitor"), S(text_)]))
+        if any(isinstance(o, str) for o in outs):
+            return r, False, [o for o in outs if isinstance(o, str)][0]
+        if outs == [C("Ok", A("fr-variant")), C("Ok", absint.DEFAULT)]:
+            r.inst("LocaleVisitor::" + nm, "a configured name decodes to its locale, anything else to the default locale (never to another one)")
+        else:
+            r.viol("R0:LocaleVisitor#" + nm, "decoding `fr` / an unknown name gives %s" % [absint.fmt(o) for o in outs], file=MH, line=f.line)
+    f4 = ast.fn("leptos_i18n/src/locale_traits.rs", "as_langid")
+    if f4 is None or flat(show(f4.body)) != "{Locale::as_icu_locale(self).as_ref()}":
+        r.viol("R0:Locale::as_langid", "as_langid is not derived from as_icu_locale", file="leptos_i18n/src/locale_traits.rs")
+    else:
+        r.inst("Locale::as_langid", "as_icu_locale(self).as_ref()")
+    return r, True, None
+
+
 def run(ctx):
-    return [r1_enum(ctx), r2_scoped(ctx)]
+    import os
+    r0, ok, why = r0_generated(ctx)
+    if ok and not os.environ.get("VERIF_FORCE_FALLBACK"):
+        return [r0, r2_scoped(ctx)]
+    if not ok and not r0.violations:
+        r0.instances[:] = []
+        r0.inst("evaluation not available", "fallback to the structural rule R1: %s" % str(why)[:160])
+        r0.floor = 1
+    return [r0, r1_enum(ctx), r2_scoped(ctx)]
 
 
 MANIFEST_ENTRY = {
